@@ -82,6 +82,11 @@ func runCheck(text string) (o checkObs, res analysis.CheckResult) {
 	}()
 	res = analysis.CheckSource(text)
 	o.Diags = res.Diagnostics
+	for _, d := range res.Diagnostics {
+		// a diagnostic is shown to the user: its text and severity are part of the analysis (a panic here kills the server)
+		_ = d.Kind.Message()
+		_ = d.Kind.Severity()
+	}
 	o.Symbols = res.GetSymbols()
 	o.Errors = res.GetErrorsCount()
 	return
@@ -348,6 +353,25 @@ func typeEdits(g *Gen, prog *GProgram, r *Rand) string {
 		return "statement-fn-as-origin"
 	case 0:
 		if r.Chance(1, 2) {
+			if len(prog.Vars) > 0 && r.Chance(1, 2) {
+				// a second declaration of a name, with another type (no origin): whichever of the two the run binds, the
+				// checker must have said something
+				i := r.Intn(len(prog.Vars))
+				d := *prog.Vars[i]
+				d.Origin = nil
+				for d.Type == prog.Vars[i].Type {
+					d.Type = r.Pick(typeNames)
+				}
+				j := i + 1 + r.Intn(len(prog.Vars)-i)
+				if r.Chance(1, 4) {
+					j = r.Intn(i + 1)
+				}
+				prog.Vars = append(prog.Vars[:j:j], append([]*GVarDecl{&d}, prog.Vars[j:]...)...)
+				if _, ok := g.rawVars[d.Name]; !ok {
+					g.rawVars[d.Name] = map[string]string{"number": "7", "portion": "1/2", "monetary": "USD 5", "string": "s", "account": "a", "asset": "USD"}[d.Type]
+				}
+				return "redeclare-other-type"
+			}
 			return "none"
 		}
 		// one argument of a built-in call (often the LAST one) gets a value of another type: a literal, or a
